@@ -1,8 +1,12 @@
 /- C12 model driver: runs the executable `WellSized` checker on the output of the REAL normalization
-(spec evaluation on the implementation output) and compares the output with the composed pass models of C10. -/
+(spec evaluation on the implementation output) and compares the output with the composed pass models of C10.
+Second stream (`"pcode"` lines; theorems `lift_wellSized`, `lift_then_normalize_wellSized`): evaluates the
+extractor domain (`C11.projectOk`, `C11.projectSized`) on the generated P-Code project and runs the checker
+on the REAL lifted program and on the REAL lifted-and-`normalize()`d program. -/
 import CweModel.Base.Proto
 import CweModel.C12.Model
 import CweModel.C10.Propagation
+import CweModel.C11.Sized
 open Lean CweModel.Proto CweModel.IR
 
 namespace CweModel.C12
@@ -15,8 +19,41 @@ def physRegs : List Variable :=
 
 def normalizeOptimizeModel (arch : String) (p : Program) : Program := C10.normalizeOptimize arch spReg physRegs p
 
+/-- the P-Code stream: P-Code project, real lifted program, real lifted and normalized program -/
+def handlePcode (j : Json) : Except String String := do
+  let p ← C11.Pcode.parseProject (← field j "pcode")
+  let ptr := p.pointerSize
+  let dom := C11.projectOk p
+  let sized := C11.projectSized p
+  let lj ← field j "lifted"
+  match lj.getStr? with
+  | .ok _ =>
+    -- no lifted program (a panic of the lifting inside the domain is reported by the check of C11)
+    return s!"ok pcode no-lifted-program {if dom && sized then "in-domain" else "out-of-domain"}"
+  | .error _ =>
+    let lifted ← parseProgram lj
+    if !(dom && sized) then
+      return s!"ok pcode modelonly {if dom then "pcode-ill-sized" else "out-of-domain"}"
+    match firstIllSized lifted ptr with
+    | some (t, r) => return s!"spec class=lifted-illsized-{r} expected=well-sized-lifted-program impl=term={t}"
+    | none =>
+      if !Model.wellSizedProgram lifted ptr then
+        return "spec class=lifted-illsized expected=well-sized-lifted-program impl=checker-disagrees"
+      let nj ← field j "norm"
+      match nj.getStr? with
+      | .ok msg => return s!"spec class=normalize-panic-after-lifting expected=normalized-program impl={msg}"
+      | .error _ =>
+        let norm ← parseProgram nj
+        match firstIllSized norm ptr with
+        | some (t, r) => return s!"spec class=normalized-illsized-{r} expected=well-sized-normalized-program impl=term={t}"
+        | none =>
+          if !Model.wellSizedProgram norm ptr then
+            return "spec class=normalized-illsized expected=well-sized-normalized-program impl=checker-disagrees"
+          return "ok pcode constrained lifted-well-sized normalized-well-sized"
+
 def handleE (line : String) : Except String String := do
   let j ← Json.parse line
+  if (j.getObjVal? "pcode").isOk then return ← handlePcode j
   let arch ← strF j "arch"
   let pb ← parseProgram (← field j "pb")
   let ptr := spReg.size
